@@ -328,12 +328,18 @@ fn run_batch(prop: &str, thorough: bool, base_seed: u64, count: u64, wall_cap_s:
     let t0 = Instant::now();
     let opts = RunOpts { prop: prop.to_string(), thorough };
     let feedback = std::env::var("VERIF_NO_FEEDBACK").is_err();
-    // generation sizes: 1/2, then four times 1/8
+    // generation sizes: quick 1/2 random, then four times 1/8; thorough 1/4 random, then twelve times 1/16
+    // (longer chains of mutants of mutants)
     let mut bounds: Vec<u64> = vec![0];
     if feedback && count >= 64 {
-        bounds.push(count / 2);
-        for k in 1..4 {
-            bounds.push(count / 2 + k * (count / 8));
+        if thorough {
+            for k in 0..12 {
+                bounds.push(count / 4 + k * (count / 16));
+            }
+        } else {
+            for k in 0..4 {
+                bounds.push(count / 2 + k * (count / 8));
+            }
         }
     }
     bounds.push(count);
@@ -435,7 +441,7 @@ fn tier_count(prop: &str, thorough: bool) -> (u64, f64) {
         _ => 440_000,
     };
     if thorough {
-        (quick * 30, 900.0)
+        (quick * 12, 1500.0)
     } else {
         (quick, 300.0)
     }
